@@ -81,6 +81,20 @@ thread_local! {
 
 /// Runs `f` with the given CPU budget for the CLI runs it starts on this thread - for runs whose expected outcome
 /// is an immediate refusal (a vanity search that must not even start).
+thread_local! {
+    static NONBLOCKING_STDIN: std::cell::Cell<bool> = const { std::cell::Cell::new(false) };
+}
+
+/// Runs made inside `f` get their standard input as a pipe left in non-blocking mode (what Node.js child
+/// processes, ssh and some CI runners hand down), written in two parts with a pause in between. Whether such a
+/// run succeeds depends on timing (a read may meet EAGAIN); callers accept an ordinary error exit.
+pub fn with_nonblocking_stdin<T>(f: impl FnOnce() -> T) -> T {
+    let old = NONBLOCKING_STDIN.with(|c| c.replace(true));
+    let r = f();
+    NONBLOCKING_STDIN.with(|c| c.set(old));
+    r
+}
+
 pub fn with_cpu_budget<T>(secs: u64, f: impl FnOnce() -> T) -> T {
     let old = CPU_BUDGET_OVERRIDE.with(|c| c.replace(Some(secs)));
     let r = f();
@@ -325,7 +339,8 @@ pub fn run_raw(exe: &Path, args: &[OsString], env: &[(String, String)], stdin: &
         let a = a.to_string_lossy();
         a.contains("/dev/stdin") || a.contains("/fd/0") || a.contains("/dev/fd")
     });
-    if std::env::var_os("HDV_NO_AMBIENT").is_none() && !by_path {
+    let nonblocking = NONBLOCKING_STDIN.with(|c| c.get());
+    if std::env::var_os("HDV_NO_AMBIENT").is_none() && !by_path && !nonblocking {
         stdin_kind = match hk % 10 {
             0 | 1 => "socket",
             2 if !stdin.is_empty() => "file",
@@ -400,6 +415,19 @@ pub fn run_raw(exe: &Path, args: &[OsString], env: &[(String, String)], stdin: &
             }
         }
     }
+    if nonblocking {
+        use std::os::unix::process::CommandExt;
+        unsafe {
+            cmd.pre_exec(|| {
+                let fl = libc::fcntl(0, libc::F_GETFL);
+                if fl >= 0 {
+                    libc::fcntl(0, libc::F_SETFL, fl | libc::O_NONBLOCK);
+                }
+                Ok(())
+            });
+        }
+        ambient.push(("stdin".into(), "a pipe in non-blocking mode".into()));
+    }
     // One run in twelve (hash-chosen) is confined to a single CPU, as under `taskset`, a one-CPU container or VM:
     // no property lets an outcome depend on how many processors the process may use.
     if std::env::var_os("HDV_NO_AMBIENT").is_none() && (hk / 13) % 12 == 5 {
@@ -459,7 +487,7 @@ pub fn run_raw(exe: &Path, args: &[OsString], env: &[(String, String)], stdin: &
     // One run in sixteen with input on a pipe or socket gets it in two or three writes with a pause in between
     // (a writer that is slower than the reader): a reader must read until end of input, not until the first
     // short read. The pause only has to outlast the child's start-up; if it does not, the run is an ordinary one.
-    let trickle: Vec<usize> = if std::env::var_os("HDV_NO_AMBIENT").is_none() && data.len() >= 2 && (hk / 1000) % 16 == 0 {
+    let trickle: Vec<usize> = if std::env::var_os("HDV_NO_AMBIENT").is_none() && data.len() >= 2 && ((hk / 1000) % 16 == 0 || nonblocking) {
         let a = 1 + (hk / 16_000) as usize % (data.len() - 1);
         let mut cuts = vec![a];
         if data.len() - a >= 2 && (hk / 7) % 2 == 0 {
